@@ -12,6 +12,7 @@ var _ = vp.Reg("Listing", H_Listing)
 var _ = vp.Reg("SameVerdict", H_SameVerdict)
 var _ = vp.Reg("ArcListing", H_ArcListing)
 var _ = vp.Reg("Text", H_Text)
+var _ = vp.Reg("PaletteListing", H_PaletteListing)
 
 // listing is what a recording printer saw.
 type listing struct {
@@ -21,6 +22,7 @@ type listing struct {
 	floats []float32 // float32 operands printed on operand lines
 	u32s   []uint32  // uint32 operands printed on operand lines (arc flags: value, largeArc bit, sweep bit)
 	colors []ivg.Color
+	rgba   []uint8 // operand lines with exactly four uint8 operands (suggested palette entries): R, G, B, A
 	dest   *rec.Dest
 }
 
@@ -32,6 +34,15 @@ func (l *listing) print(b []byte, format string, args ...interface{}) {
 	operand := len(format) > 0 && format[0] == ' '
 	if !operand && l.dest != nil && len(l.dest.Log) > 0 {
 		l.lines++
+	}
+	if operand && len(args) == 4 {
+		r, ok0 := args[0].(uint8)
+		g, ok1 := args[1].(uint8)
+		b, ok2 := args[2].(uint8)
+		a, ok3 := args[3].(uint8)
+		if ok0 && ok1 && ok2 && ok3 {
+			l.rgba = append(l.rgba, r, g, b, a)
+		}
 	}
 	if operand {
 		for _, a := range args {
@@ -239,4 +250,43 @@ func H_Text() {
 	vp.Assert(j == len(src), "the hex fields together show as many bytes as the input has")
 	vp.Assert(same, "the hex fields, concatenated in line order, reproduce the input exactly")
 	vp.Assert(heads == 2+len(d.Log)-1, "two header lines and one instruction line per delivered operation")
+}
+
+// H_PaletteListing: a suggested-palette chunk with n colours in any of the four
+// forms and arbitrary colour bytes (valid, non-premultiplied, gradient-shaped,
+// indirect): the byte columns reproduce the input and the listing prints, for
+// every palette entry, exactly the RGBA value the decoder delivers through Reset.
+func H_PaletteListing() {
+	n := 1 + vp.Choice("n", vp.Param("N", 2))
+	format := vp.Choice("format", 4)
+	body := vp.Bytes("col", n*(1+format))
+	src := []byte{0x89, 0x49, 0x56, 0x47, 0x02, byte(2+len(body)) << 1, 0x02, byte(n-1) | byte(format)<<6}
+	src = append(src, body...)
+	vp.ReadOnly(src)
+	var d rec.Dest
+	l := listing{dest: &d}
+	m := ivg.DefaultMetadata
+	err := decode.VPDecode(&d, l.print, &m, false, src)
+	vp.Reach("decoded")
+	vp.Assert(err == nil, "a well-formed palette chunk is accepted")
+	if err != nil || len(d.Log) != 1 {
+		return
+	}
+	vp.Assert(len(l.bytes) == len(src), "the byte columns together have the input's length")
+	if len(l.bytes) == len(src) {
+		same := true
+		for i := range src {
+			same = vp.And(same, l.bytes[i] == src[i])
+		}
+		vp.Assert(same, "the byte columns, concatenated in line order, reproduce the input")
+	}
+	vp.Assert(len(l.rgba) == 4*n && len(l.colors) == 0, "every palette entry is printed once, as an RGBA value")
+	if len(l.rgba) == 4*n {
+		same := true
+		for i := 0; i < n; i++ {
+			c := d.Palette[i]
+			same = vp.All(same, l.rgba[4*i] == c.R, l.rgba[4*i+1] == c.G, l.rgba[4*i+2] == c.B, l.rgba[4*i+3] == c.A)
+		}
+		vp.Assert(same, "printed palette colours are the colours delivered through Reset")
+	}
 }
